@@ -90,7 +90,7 @@ func NewSolver(name string, timeoutMs int) (*Solver, error) {
 		cmd = exec.Command("z3-new", "-in")
 	case "cvc5":
 		cmd = exec.Command("cvc5", "--incremental", "--strings-exp", "--produce-models",
-			"--lang=smt2", fmt.Sprintf("--tlimit-per=%d", timeoutMs))
+			"--lang=smt2", "--strings-model-max-len=4194304", fmt.Sprintf("--tlimit-per=%d", timeoutMs))
 	default:
 		return nil, fmt.Errorf("unknown solver %q", name)
 	}
